@@ -146,7 +146,7 @@ def _alias_mutations(func, sources):
     return out
 
 
-@rule("CV14", ["C10"], "building a bin model never mutates the bin specification it was built from", engine="SAI", floor=3)
+@rule("CV14", ["C10", "C19"], "building a bin model never mutates the bin specification it was built from", engine="SAI", floor=3)
 def cv14(prog, rr):
     mk = prog.method("CoverpointBinCollectionModel", "mk_collection")
     rl = mk.params[1]
